@@ -147,6 +147,14 @@ def run_mc(module, cfg, workers=None, timeout=1500, extra=None, simulate=None, c
     os.replace(tmp, out)
     if st["ok"]:
         json.dump(st, open(meta, "w"))
+        # outputs cached for older versions of this module / configuration are of no use any more
+        prefix = "%s.%s." % (module, cfg.replace(".cfg", ""))
+        for fn in os.listdir(os.path.join(WORK, "cases")):
+            if fn.startswith(prefix) and not fn.startswith(os.path.basename(out)):
+                try:
+                    os.remove(os.path.join(WORK, "cases", fn))
+                except OSError:
+                    pass
     return st
 
 
